@@ -1618,7 +1618,8 @@ static bool buildInputIsResultValid(ninja::Node* node,
 }
 
 static bool buildCommandIsResultValid(ninja::Command* command,
-                                      const core::ValueType& valueData) {
+                                      const core::ValueType& valueData,
+                                      bool isPhony) {
   BuildValue value = BuildValue::fromValue(valueData);
 
   // If the prior value wasn't for a successful command, recompute.
@@ -1634,9 +1635,11 @@ static bool buildCommandIsResultValid(ninja::Command* command,
 
   // Check the timestamps on each of the outputs.
   for (unsigned i = 0, e = command->getOutputs().size(); i != e; ++i) {
-    // Always rebuild if the output is missing.
+    // Always rebuild if the output is missing, except for a phony command with
+    // inputs: its output is an alias, not a file, and (as in Ninja) it is
+    // brought up to date through its inputs.
     auto info = FileInfo::getInfoForPath(command->getOutputs()[i]->getCanonicalPath());
-    if (info.isMissing())
+    if (info.isMissing() && !(isPhony && !command->getInputs().empty()))
       return false;
 
     // Otherwise, the result is valid if file information has not changed.
@@ -2128,7 +2131,9 @@ int commands::executeNinjaBuildCommand(std::vector<std::string> args) {
         if (context.simulate)
           return true;
 
-        return buildCommandIsResultValid(command, value);
+        return buildCommandIsResultValid(
+            command, value,
+            command->getRule() == context.manifest->getPhonyRule());
       }
 
       void updateStatus(core::BuildEngine&, core::Rule::StatusKind status) override {
